@@ -3,6 +3,7 @@ package props
 import (
 	"fmt"
 	"go/token"
+	"go/types"
 	"strings"
 
 	"golang.org/x/tools/go/ssa"
@@ -700,28 +701,60 @@ func schemaFlushMarksWhatItWrote(c *eng.Ctx) {
 		c.Undecided("no flusher.Write(schema) in metricSchemaStore.Flush or its callbacks")
 	}
 	markAll := p.SitesDeep(f, eng.AnyCallTo("series/metric.Schema.MarkPersisted"))
+	marks := p.SitesDeep(f, eng.StoreField("series/field.Meta.Persisted", "series/tag.Meta.Persisted"))
+	isLive := func(arg ssa.Value) bool {
+		// the callback parameter of immutable.WalkEntry (or a value read from the store): the object writers may extend
+		return eng.DependsOn(arg, func(x ssa.Value) bool {
+			pr, ok := x.(*ssa.Parameter)
+			return ok && pr.Parent() != f
+		}) && !eng.DependsOn(arg, func(x ssa.Value) bool { _, ok := x.(*ssa.Alloc); return ok })
+	}
 	for i, w := range writes {
 		arg := eng.CallArgs(w.Instr.(*ssa.Call))[0]
 		at := posInFlush(w.Instr)
-		underLock := at != nil && ls.At(at).HasField(mssMu, false)
-		// a private copy: the written value is (the address of) a local / a struct built in Flush, not an element of the store
-		live := eng.DependsOn(arg, func(x ssa.Value) bool {
-			if pr, ok := x.(*ssa.Parameter); ok && pr.Parent() != f {
-				// the callback parameter of immutable.WalkEntry: the live object of the store
-				return true
+		underWriteLock := at != nil && ls.At(at).HasField(mssMu, true)
+		if isLive(arg) {
+			// the live object is written: only safe inside the write hold that also marks it
+			okHold := underWriteLock
+			why := "flusher.Write(" + p.Desc(arg) + ") serialises the live schema object outside the store's write lock"
+			for _, m := range append(append([]eng.Site{}, markAll...), marks...) {
+				mp := posInFlush(m.Instr)
+				if mp == nil || at == nil {
+					okHold = false
+					continue
+				}
+				if ok, w2 := ls.SameHold(at, mp, mssMu, true); !ok {
+					okHold = false
+					why = "the write of the live object and the marking are not in one write hold (" + w2 + "): an entry appended in between is marked persisted without having been written"
+				}
 			}
-			return false
-		}) && !eng.DependsOn(arg, func(x ssa.Value) bool { _, ok := x.(*ssa.Alloc); return ok })
-		if live && !underLock {
-			c.Check(len(markAll) == 0, fmt.Sprintf("live-object-written-unlocked-is-not-marked-wholesale[%d]", i), w.Instr, f,
-				"a schema object that writers can still extend is serialised outside the store lock; marking ALL its entries persisted afterwards would mark entries appended meanwhile that were never written",
-				"flusher.Write("+p.Desc(arg)+") runs without "+mssMu+" and Flush later calls Schema.MarkPersisted() on the live objects")
-		} else {
-			c.Check(true, fmt.Sprintf("written-value-is-stable[%d]", i), w.Instr, f, "the schema handed to the flusher cannot change while it is written (private copy, or written under the store lock)", "")
+			c.Check(okHold, fmt.Sprintf("live-object-written-and-marked-in-one-hold[%d]", i), w.Instr, f,
+				"a schema object that writers can still extend is written and marked persisted inside one write hold of the store lock", why)
+			continue
+		}
+		c.Check(true, fmt.Sprintf("written-value-is-a-private-copy[%d]", i), w.Instr, f, "the schema handed to the flusher is a copy taken by Flush (it cannot change while it is written)", "")
+		// ... then nothing may be marked beyond what the copy holds: no wholesale MarkPersisted on the live object, and
+		// every Persisted store is bounded by a loop over the written copy
+		c.Check(len(markAll) == 0, fmt.Sprintf("no-wholesale-marking-after-writing-a-copy[%d]", i), w.Instr, f,
+			"after writing a copy, the live object is not marked persisted wholesale (it may hold entries appended since the copy was taken)",
+			"Schema.MarkPersisted() marks every entry of the live object although only the copy was written")
+		wfa, _ := eng.Unwrap(arg).(*ssa.FieldAddr)
+		for k, m := range marks {
+			bounded := false
+			conds, _ := eng.GuardingConds(m.Instr.Parent(), m.Instr)
+			for _, cd := range conds {
+				if eng.DependsOn(cd, func(x ssa.Value) bool {
+					fa, ok := x.(*ssa.FieldAddr)
+					return ok && wfa != nil && fa.Field == wfa.Field && types.Identical(fa.X.Type(), wfa.X.Type())
+				}) {
+					bounded = true
+				}
+			}
+			c.Check(bounded, fmt.Sprintf("marking-bounded-by-the-written-copy[%d,%d]", i, k), m.Instr, f,
+				"an entry is marked persisted only inside a loop over the entries of the written copy", "the Persisted store is not guarded by the extent of the written copy")
 		}
 	}
 	// whatever marks entries persisted does so under the write lock
-	marks := p.SitesDeep(f, eng.StoreField("series/field.Meta.Persisted", "series/tag.Meta.Persisted"))
 	for i, m := range append(append([]eng.Site{}, markAll...), marks...) {
 		at := posInFlush(m.Instr)
 		c.Check(at != nil && ls.At(at).HasField(mssMu, true), fmt.Sprintf("marking-under-write-lock[%d]", i), m.Instr, f, "entries are marked persisted under the store's write lock", "")
